@@ -107,11 +107,11 @@ Definition pat_safe (pat : option str) (names : list str) : Prop :=
   | Some p => p <> [] /\ (has_star p = true -> forall s, In s names -> safe p s)
   end.
 
-Lemma code_match_spec pat names s :
-  pat_safe pat names -> In s names -> code_match pat s = spec_match pat s.
+Lemma legacy_code_match_spec pat names s :
+  pat_safe pat names -> In s names -> legacy_code_match pat s = spec_match pat s.
 Proof.
   destruct pat as [p|]; [|reflexivity]. intros [Hne Hs] Hin.
-  destruct p as [|c p]; [congruence|]. cbn [code_match spec_match].
+  destruct p as [|c p]; [congruence|]. cbn [legacy_code_match spec_match].
   destruct (has_star (c :: p)) eqn:E.
   - apply like_translate_spec. auto.
   - symmetry. now apply spec_glob_nostar.
@@ -160,16 +160,16 @@ Proof.
 Qed.
 
 (* ---------- the query ---------- *)
-Lemma query_exact_restricted q rows :
+Lemma legacy_query_exact_restricted q rows :
   pat_safe (q_task q) (map r_name rows) ->
   pat_safe (q_cycle q) (map r_cycle rows) ->
-  code_query q rows = spec_query q rows.
+  legacy_code_query q rows = spec_query q rows.
 Proof.
-  intros Ht Hc. unfold code_query, spec_query, run_query_with.
+  intros Ht Hc. unfold legacy_code_query, spec_query, run_query_with.
   destruct (polling_ok q); [|reflexivity]. f_equal.
   apply select_from_ext. intros r Hr. unfold row_ok.
-  rewrite (code_match_spec _ _ _ Ht (in_map r_name _ _ Hr)).
-  rewrite (code_match_spec _ _ _ Hc (in_map r_cycle _ _ Hr)). reflexivity.
+  rewrite (legacy_code_match_spec _ _ _ Ht (in_map r_name _ _ Hr)).
+  rewrite (legacy_code_match_spec _ _ _ Hc (in_map r_cycle _ _ Hr)). reflexivity.
 Qed.
 
 Lemma query_result m q rows l :
@@ -256,4 +256,27 @@ Proof.
   destruct (Z.eqb_spec c x) as [->|Hne].
   - rewrite Z.leb_refl. reflexivity.
   - destruct (Z.leb_spec c x), (Z.leb_spec x c); cbn; try reflexivity. lia.
+Qed.
+
+(* ---------- the current code (GLOB on the escaped pattern) is exact ---------- *)
+(* the empty pattern is the caller's "not given" (`if task:`), not a pattern *)
+Definition pat_nonempty (pat : option str) : Prop := pat <> Some [].
+
+Lemma code_match_spec pat s : pat_nonempty pat -> code_match pat s = spec_match pat s.
+Proof.
+  destruct pat as [p|]; [|reflexivity]. intros Hne.
+  destruct p as [|c p]; [exfalso; apply Hne; reflexivity|]. cbn [code_match spec_match].
+  destruct (has_star (c :: p)) eqn:E.
+  - apply glob_escape_exact.
+  - symmetry. now apply spec_glob_nostar.
+Qed.
+
+Lemma query_exact q rows :
+  pat_nonempty (q_task q) -> pat_nonempty (q_cycle q) ->
+  code_query q rows = spec_query q rows.
+Proof.
+  intros Ht Hc. unfold code_query, spec_query, run_query_with.
+  destruct (polling_ok q); [|reflexivity]. f_equal.
+  apply select_from_ext. intros r _. unfold row_ok.
+  now rewrite (code_match_spec _ _ Ht), (code_match_spec _ _ Hc).
 Qed.
